@@ -378,6 +378,13 @@ func c10History(c *vk.Ctx, r *rand.Rand, hist int, hub *TargetHub, utgt *udpTarg
 		} else {
 			st = reloadStep{Conf: next, Raw: []byte(next.YAML()), Expect: "ok"}
 		}
+		if step == 2 && nSteps >= 3 && hist%2 == 1 && pendingRetry == nil {
+			// a configuration that is valid and serves nothing (empty file, only a comment, an empty
+			// services list) loaded over a serving one: everything stops listening, every key is gone
+			raw := [][]byte{[]byte(""), []byte("# nothing to serve\n"), []byte("services: []\n")}[(hist/2+c.Batch)%3]
+			st = reloadStep{Conf: ConfSpec{}, Raw: raw, Expect: "ok"}
+			c.Count("reloads_to_a_configuration_without_listeners", 1)
+		}
 		c.Progress("C10 hist=%d step=%d fault=%q index=%d", hist, step, st.Fault, st.Index)
 		// apply
 		var occ io.Closer
